@@ -605,6 +605,17 @@ func (e *env) exec(i int, o Op) Obs {
 				ix[j] = int(x)
 			}
 			st.RemoveWithdrawRecords(ix)
+		case "editwd":
+			// what staking/endblock.go and staking/slash.go do: edit a record of the live queue in place
+			q := st.GetWithdrawQueue()
+			if int(o.A) < len(q.Records) {
+				rec := q.Records[o.A]
+				if o.B == 9 {
+					rec.Finished = uint8(u64Of(o.V))
+				} else {
+					rec.FinalBalance.Set(bigOf(o.V))
+				}
+			}
 		case "listvals":
 			l := Obs{IsL: true}
 			for _, v := range st.GetValidatorsForUpdate() {
@@ -724,6 +735,8 @@ func sopCoq(o Op) string {
 		return "OAddWithdraw " + nl(o.Rec)
 	case "removewithdraws":
 		return "ORemoveWithdraws " + u64s(o.Idx)
+	case "editwd":
+		return fmt.Sprintf("OEditWithdraw %d %d %s", o.A, o.B, bstr(o.V))
 	case "listvals":
 		return "OListVals"
 	case "addsrec":
@@ -1003,6 +1016,7 @@ type genr struct {
 	e       *env
 	h       *History
 	nextH   uint64
+	noZero  bool           // no validator with zero token and stake (the flush deletes those: IntermediateRoot placement matters)
 	removed map[uint64]int // RemoveValidator calls on a handle since its last flush
 	origin  map[uint64]int
 	res     *vf.Result
@@ -1097,11 +1111,16 @@ func (g *genr) newValRecOn(hd, id uint64, noBig bool) *Val {
 	tok.Add(tok, big.NewInt(int64(g.r.Intn(3))))
 	switch g.r.Intn(10) {
 	case 0:
-		tok, stake = new(big.Int), 0
+		if !g.noZero {
+			tok, stake = new(big.Int), 0
+		}
 	case 1:
 		if !noBig {
 			tok, stake = new(big.Int).Lsh(big.NewInt(1), 64), 0 // Uint64() == 0
 		}
+	}
+	if g.noZero && tok.Sign() == 0 && stake == 0 {
+		tok = big.NewInt(1)
 	}
 	v := state.NewValidator(string([]byte{byte('a' + g.r.Intn(3))}), addrOf(g.acct()), addrOf(g.acct()), params.ValidatorRole(1+g.r.Intn(3)),
 		valKeys[id-1], g.r.Bytes(g.r.Intn(3)), tok, big.NewInt(stake), uint16(g.r.Intn(2)), uint16(g.r.Intn(100)), uint16(g.r.Intn(100)), uint8(g.r.Intn(2)))
@@ -1133,7 +1152,9 @@ func (g *genr) mutateVal(hd, id uint64) *Val {
 			nv.Stake.Add(nv.Stake, k)
 			nv.Token.Add(nv.Token, new(big.Int).Mul(k, unit))
 		case 3:
-			nv.Token, nv.Stake = new(big.Int), new(big.Int)
+			if !g.noZero {
+				nv.Token, nv.Stake = new(big.Int), new(big.Int)
+			}
 		case 4:
 			nv.Expelled = !nv.Expelled
 			nv.ExpelExpired = uint64(g.r.Intn(100))
@@ -1251,6 +1272,10 @@ func (g *genr) write(hd uint64) {
 		g.do(Op{K: "addwithdraw", H: hd, Rec: g.wrec()})
 	case k < 91:
 		n := len(st.GetWithdrawQueue().Records)
+		if n > 0 && g.r.Chance(60) {
+			g.editwd(hd, n)
+			break
+		}
 		var idx []uint64
 		for i := 0; i < n; i++ {
 			if g.r.Chance(40) {
@@ -1294,6 +1319,10 @@ func (g *genr) writeVal(hd uint64) {
 		g.do(Op{K: "addwithdraw", H: hd, Rec: g.wrec()})
 	case k < 92:
 		n := len(st.GetWithdrawQueue().Records)
+		if n > 0 && g.r.Chance(65) {
+			g.editwd(hd, n)
+			break
+		}
 		var idx []uint64
 		for i := 0; i < n; i++ {
 			if g.r.Chance(50) {
@@ -1303,6 +1332,16 @@ func (g *genr) writeVal(hd uint64) {
 		g.do(Op{K: "removewithdraws", H: hd, Idx: idx})
 	default:
 		g.do(Op{K: "addsrec", H: hd, A: uDlg[g.r.Intn(len(uDlg))], B: id, C: uint64(1 + g.r.Intn(3)), Some: true, V: g.amt()})
+	}
+}
+
+// editwd: the staking module's in-place edit of a queued withdraw record (Finished := 1, or a lower FinalBalance)
+func (g *genr) editwd(hd uint64, n int) {
+	i := uint64(g.r.Intn(n))
+	if g.r.Bool() {
+		g.do(Op{K: "editwd", H: hd, A: i, B: 9, V: fmt.Sprintf("%d", g.r.Intn(2))})
+	} else {
+		g.do(Op{K: "editwd", H: hd, A: i, B: 8, V: fmt.Sprintf("%d", g.r.Intn(4))})
 	}
 }
 
@@ -1839,6 +1878,79 @@ func (g *genr) tLong() {
 	}
 }
 
+// tIR: IntermediateRoot is transparent where nothing is left to finalise.  Two StateDBs reopened
+// from one commit take the same transactions (writes, then Finalise); the second one also runs
+// IntermediateRoot right after some of the Finalise calls, right after state.New and twice in a
+// row.  Final roots, content, and the states reopened after a Commit must agree.  Writes include
+// the staking module's in-place edits of queued withdraw records and of the statistics.
+// (Validators with zero token and stake are left out: the flush deletes those, so for them the
+// code itself makes the placement matter.)
+func (g *genr) tIR() {
+	g.noZero = true
+	g.prefix(0, 3+g.r.Heavy(20))
+	if g.r.Chance(70) {
+		g.do(Op{K: "addwithdraw", H: 0, Rec: g.wrec()})
+		if g.r.Bool() {
+			g.do(Op{K: "addwithdraw", H: 0, Rec: g.wrec()})
+		}
+	}
+	g.do(Op{K: "commit", H: 0, Del: true})
+	a, b := g.fresh(), g.fresh()
+	g.do(Op{K: "reopen", H: 0, H2: a})
+	g.do(Op{K: "reopen", H: 0, H2: b})
+	extra := func() {
+		g.do(Op{K: "iroot", H: b, Del: true})
+		if g.r.Chance(25) {
+			g.do(Op{K: "iroot", H: b, Del: g.r.Bool()})
+		}
+		g.res.Count("ir_extra_intermediate_root")
+	}
+	if g.r.Bool() {
+		extra() // the sealing node's IntermediateRoot right after the state is made
+	}
+	txs := 1 + g.r.Heavy(10)
+	for t := 0; t < txs; t++ {
+		start := len(g.h.Ops)
+		n := 1 + g.r.Intn(4)
+		for i := 0; i < n; i++ {
+			if g.r.Chance(45) {
+				g.writeVal(a)
+			} else {
+				g.write(a)
+			}
+		}
+		g.do(Op{K: "finalise", H: a, Del: true})
+		for _, o := range append([]Op{}, g.h.Ops[start:]...) {
+			o.H = b
+			if o.K == "delegate" {
+				o.Val, o.Some = nil, false
+			}
+			g.do(o)
+		}
+		if g.r.Chance(50) {
+			extra()
+		}
+	}
+	both := func(kind, why string, mk func(h uint64) int) {
+		i, j := mk(a), mk(b)
+		g.h.Asserts = append(g.h.Asserts, Assert{Kind: kind, I: i, J: j, Copy: -1, Why: why, Only: "generic"})
+	}
+	if g.r.Bool() {
+		both("eqroots", "the roots depend on where IntermediateRoot was called", func(h uint64) int { return g.do(Op{K: "iroot", H: h, Del: true}) })
+		both("eqcontent", "the content depends on where IntermediateRoot was called", func(h uint64) int { return g.do(Op{K: "view", H: h}) })
+	}
+	both("eqroots", "the committed roots depend on where IntermediateRoot was called", func(h uint64) int { return g.do(Op{K: "commit", H: h, Del: true}) })
+	both("eqcontent", "the committed content depends on where IntermediateRoot was called", func(h uint64) int { return g.do(Op{K: "view", H: h}) })
+	for _, h := range []uint64{a, b} {
+		v := g.do(Op{K: "view", H: h})
+		h2 := g.fresh()
+		g.do(Op{K: "reopen", H: h, H2: h2})
+		j := g.do(Op{K: "view", H: h2})
+		g.h.Asserts = append(g.h.Asserts, Assert{Kind: "eqcontent", I: v, J: j, Copy: -1,
+			Why: "the state reopened from the committed roots differs from the live state", Only: "generic"})
+	}
+}
+
 func minInt(a, b int) int {
 	if a < b {
 		return a
@@ -1861,12 +1973,15 @@ func genHistory(r *vf.Rng, res *vf.Result) *History {
 	case k < 70:
 		g.h.Comment = "indep"
 		g.tIndep()
-	case k < 85:
+	case k < 82:
 		g.h.Comment = "both"
 		g.tBoth()
-	default:
+	case k < 92:
 		g.h.Comment = "long"
 		g.tLong()
+	default:
+		g.h.Comment = "ir"
+		g.tIR()
 	}
 	res.Count("template_" + g.h.Comment)
 	return g.h
@@ -1996,7 +2111,7 @@ func gen(seed uint64, n int, outDir, corpusDir string) {
 	vf.WriteFile(filepath.Join(outDir, "Cases.v"), sb.String())
 	res.Cases = count
 	res.Distinct = len(distinct)
-	res.Rule = "a case is one history over several StateDB handles sharing a database: random writes (accounts, storage, code, delegation lists, validators, statistics, withdraw queue, staking records, pending relationships; code, values and validator records mostly from small pools, so identical re-writes and A-B-A sequences inside one commit window are frequent) with Finalise/IntermediateRoot/Commit at random points and both deleteEmptyObjects flags; templates: random walk, the same cell writes permuted and regrouped on handles reopened from one commit, copy at a chosen point (inside a transaction, after Finalise, after IntermediateRoot, after Commit) followed by the same suffix on both sides, writes to one side of a copy, writes to BOTH sides of a copy, interleaved (appends/removals on the delegation list of one live delegator, or any writes: validators, delegations, withdraw queue, staking records, accounts), each side against an unshared twin reopened from a commit; one StateDB living across several Commits on the shared Database with ANY earlier committed roots reopened later (state.New and NewVldReader through the Database's trie cache, and through a new Database over the same disk) and IntermediateRoot of the reopened state; every call's result (root numbers, full reads of all observed addresses) is compared with the model; non-trivial = has a flush and a copy or reopen; distinct by full history"
+	res.Rule = "a case is one history over several StateDB handles sharing a database: random writes (accounts, storage, code, delegation lists, validators, statistics, withdraw queue, staking records, pending relationships; code, values and validator records mostly from small pools, so identical re-writes and A-B-A sequences inside one commit window are frequent) with Finalise/IntermediateRoot/Commit at random points and both deleteEmptyObjects flags; templates: random walk, the same cell writes permuted and regrouped on handles reopened from one commit, copy at a chosen point (inside a transaction, after Finalise, after IntermediateRoot, after Commit) followed by the same suffix on both sides, writes to one side of a copy, writes to BOTH sides of a copy, interleaved (appends/removals on the delegation list of one live delegator, or any writes: validators, delegations, withdraw queue, staking records, accounts), each side against an unshared twin reopened from a commit; one StateDB living across several Commits on the shared Database with ANY earlier committed roots reopened later (state.New and NewVldReader through the Database's trie cache, and through a new Database over the same disk) and IntermediateRoot of the reopened state; the same transactions on two reopened states with and without extra IntermediateRoot calls after Finalise (roots must not depend on the placement), with the staking module's in-place edits of queued withdraw records; every call's result (root numbers, full reads of all observed addresses) is compared with the model; non-trivial = has a flush and a copy or reopen; distinct by full history"
 	res.Write(filepath.Join(outDir, "result.json"))
 }
 
